@@ -499,5 +499,126 @@ func verifC06Panel() []*verifC06Query {
 			return obs(idx, vs.CanonJSON(set), err) // Coordinate.Node builds a list from this map
 		})
 	}
+	// ---- lookups filtered by node metadata (catalog_endpoint.go ListNodes / ListServices, health_endpoint.go
+	// ChecksInState / ServiceChecks with NodeMetaFilters): store index verbatim
+	for _, rack := range []string{"r1", "r2"} {
+		filt := map[string]string{"rack": rack}
+		add("NodesByMeta", "rack="+rack, func(s *state.Store, ws memdb.WatchSet) (verifC06Obs, error) {
+			idx, ns, err := s.NodesByMeta(ws, filt, em(), "")
+			return obs(idx, verifC06Bag(ns), err)
+		})
+		add("ServicesByNodeMeta", "rack="+rack, func(s *state.Store, ws memdb.WatchSet) (verifC06Obs, error) {
+			idx, sns, err := s.ServicesByNodeMeta(ws, filt, em(), "")
+			// Catalog.ListServices -> servicesTagsByName
+			m := map[string]map[string]bool{}
+			for _, sn := range sns {
+				if m[sn.ServiceName] == nil {
+					m[sn.ServiceName] = map[string]bool{}
+				}
+				for _, t := range sn.ServiceTags {
+					m[sn.ServiceName][t] = true
+				}
+			}
+			var names []string
+			for n := range m {
+				var tags []string
+				for t := range m[n] {
+					tags = append(tags, t)
+				}
+				sort.Strings(tags)
+				names = append(names, fmt.Sprintf("%q:%q", n, tags))
+			}
+			sort.Strings(names)
+			return obs(idx, strings.Join(names, ";"), err)
+		})
+		for _, svc := range []string{"web", "db"} {
+			svc := svc
+			add("ServiceChecksByNodeMeta", svc+",rack="+rack, func(s *state.Store, ws memdb.WatchSet) (verifC06Obs, error) {
+				idx, cs, err := s.ServiceChecksByNodeMeta(ws, svc, filt, em(), "")
+				return obs(idx, verifC06Bag(cs), err)
+			})
+		}
+		for _, st := range []string{api.HealthAny, api.HealthCritical} {
+			st := st
+			add("ChecksInStateByNodeMeta", st+",rack="+rack, func(s *state.Store, ws memdb.WatchSet) (verifC06Obs, error) {
+				idx, cs, err := s.ChecksInStateByNodeMeta(ws, st, filt, em(), "")
+				return obs(idx, verifC06Bag(cs), err)
+			})
+		}
+	}
+
+	// ---- Connect CA roots (connect_ca_endpoint.go Roots -> Server.getCARoots): index = max(roots, config)
+	add("CARoots", "", func(s *state.Store, ws memdb.WatchSet) (verifC06Obs, error) {
+		idx, roots, config, err := s.CARootsAndConfig(ws)
+		if err != nil {
+			return verifC06Obs{}, err
+		}
+		if config == nil || config.ClusterID == "" {
+			return verifC06Obs{NoIdx: true, Res: "error: CA has not finished initializing"}, nil
+		}
+		active := ""
+		for _, r := range roots {
+			if r.Active {
+				active = r.ID
+			}
+		}
+		return obs(idx, "cluster="+config.ClusterID+",active="+active+","+verifC06Seq(roots), nil)
+	})
+	add("CAConfig", "", func(s *state.Store, ws memdb.WatchSet) (verifC06Obs, error) {
+		idx, config, err := s.CAConfig(ws)
+		return obs(idx, vs.CanonJSON(config), err)
+	})
+
+	// ---- peering reads (rpc/peering service.go PeeringRead / PeeringList / TrustBundleRead / TrustBundleListByService,
+	// proxycfg-glue ServerPeeringList / ServerTrustBundle / ServerTrustBundleList / ServerExportedPeeredServices, the
+	// peerstream subscription set-up): store index verbatim
+	for _, name := range []string{"peerA", "peerB"} {
+		name := name
+		add("PeeringRead", name, func(s *state.Store, ws memdb.WatchSet) (verifC06Obs, error) {
+			idx, p, err := s.PeeringRead(ws, state.Query{Value: name})
+			o, err := obs(idx, vs.CanonJSON(p), err)
+			o.NotFound = p == nil
+			return o, err
+		})
+		add("PeeringReadByID", name, func(s *state.Store, ws memdb.WatchSet) (verifC06Obs, error) {
+			idx, p, err := s.PeeringReadByID(ws, vs.C06PeerIDs[name])
+			o, err := obs(idx, vs.CanonJSON(p), err)
+			o.NotFound = p == nil
+			return o, err
+		})
+		add("PeeringTrustBundleRead", name, func(s *state.Store, ws memdb.WatchSet) (verifC06Obs, error) {
+			idx, tb, err := s.PeeringTrustBundleRead(ws, state.Query{Value: name})
+			o, err := obs(idx, vs.CanonJSON(tb), err)
+			o.NotFound = tb == nil
+			return o, err
+		})
+		add("ExportedServicesForPeer", name, func(s *state.Store, ws memdb.WatchSet) (verifC06Obs, error) {
+			idx, l, err := s.ExportedServicesForPeer(ws, vs.C06PeerIDs[name], "dc1")
+			return obs(idx, vs.CanonJSON(l), err)
+		})
+	}
+	add("PeeringList", "", func(s *state.Store, ws memdb.WatchSet) (verifC06Obs, error) {
+		idx, ps, err := s.PeeringList(ws, *em())
+		return obs(idx, verifC06Bag(ps), err)
+	})
+	add("PeeringTrustBundleList", "", func(s *state.Store, ws memdb.WatchSet) (verifC06Obs, error) {
+		idx, tbs, err := s.PeeringTrustBundleList(ws, *em())
+		return obs(idx, verifC06Bag(tbs), err)
+	})
+	add("ExportedServicesForAllPeersByName", "", func(s *state.Store, ws memdb.WatchSet) (verifC06Obs, error) {
+		idx, m, err := s.ExportedServicesForAllPeersByName(ws, "dc1", *em())
+		return obs(idx, vs.CanonJSON(m), err)
+	})
+	for _, svc := range []string{"web", "db"} {
+		svc := svc
+		add("PeeringsForService", svc, func(s *state.Store, ws memdb.WatchSet) (verifC06Obs, error) {
+			idx, ps, err := s.PeeringsForService(ws, svc, *em())
+			return obs(idx, verifC06Bag(ps), err)
+		})
+		add("TrustBundleListByService", svc, func(s *state.Store, ws memdb.WatchSet) (verifC06Obs, error) {
+			idx, tbs, err := s.TrustBundleListByService(ws, svc, "dc1", *em())
+			return obs(idx, verifC06Bag(tbs), err)
+		})
+	}
 	return qs
 }
